@@ -270,9 +270,22 @@ def r_view_symmetry(ctx):
         def ren(gs, lo, hi):
             m = {lo: LO, hi: HI}
             out = []
+            def conjuncts(g2):
+                """and(..) and not(or(..)) split into their conjuncts; min(a, b) >= c is a >= c and b >= c (max / <= alike)"""
+                if is_app(g2) and g2[1] in ("and", "and*"):
+                    return [c_ for x in g2[2:] for c_ in conjuncts(x)]
+                if is_app(g2, "not") and len(g2) == 3 and is_app(g2[2], "or"):
+                    return [c_ for x in g2[2][2:] for c_ in conjuncts(app("not", x))]
+                if is_app(g2, "not") and len(g2) == 3 and is_app(g2[2], "not") and len(g2[2]) == 3:
+                    return conjuncts(g2[2][2])
+                if is_app(g2) and len(g2) == 4 and g2[1] in (">=", ">", "<=", "<"):
+                    for side, other, fn_ in ((2, 3, "min" if g2[1] in (">=", ">") else "max"), (3, 2, "max" if g2[1] in (">=", ">") else "min")):
+                        t_ = g2[side]
+                        if isinstance(t_, tuple) and len(t_) == 4 and t_[0] == "call" and t_[1] == fn_ and len(t_[2]) >= 2 and not t_[3]:
+                            return [c_ for x in t_[2] for c_ in conjuncts(app(g2[1], *((x, g2[other]) if side == 2 else (g2[other], x))))]
+                return [g2]
             for g_ in gs:
-                g2 = substitute(g_, m)
-                for c in (g2[2:] if is_app(g2) and g2[1] in ("and", "and*") else [g2]):
+                for c in conjuncts(substitute(g_, m)):
                     if "assignments" in show(c) or "assigned_resources" in show(c) or dedupe(c):
                         continue
                     out.append(c)
